@@ -37,7 +37,9 @@ READONLY = ['verilog', 'testbench', 'firrtl', 'trivialgraph', 'graphviz', 'svg',
 def bounds(tier):
     return {'read-only calls': READONLY, 'emitters under order exploration': EMITTERS,
             'order exploration': 'every pair of objects gets symbolic ranks (thorough: +sampled triples); designs <= 14 objects',
-            'key collision search': 'names of length <= 4 over {a,b,A,0,1,_}'}
+            'key collision search': 'names of length <= 4 over {a,b,A,0,1,_}',
+            'pass order': 'passes %r on 5 designs; two objects at a time keep or swap their places in every set (quick: 40 pairs '
+                          'per design, same-kind pairs first); each distinct result vs the source, K=3 from reset' % PASSES20}
 
 
 def build_det(d):
@@ -97,6 +99,45 @@ def build_det(d):
     return pyrtl.working_block()
 
 
+def build_passd(d):
+    """designs on which a transformation pass has a choice to make that depends on set iteration order"""
+    k = d['kind']
+    a, b = pyrtl.Input(2, 'a'), pyrtl.Input(2, 'b')
+    if k == 'dup_regs':
+        # registers loading the very same wire, with different reset values
+        r1, r2, r3 = pyrtl.Register(2, 'r1', reset_value=0), pyrtl.Register(2, 'r2', reset_value=1), pyrtl.Register(2, 'r3')
+        for r in (r1, r2, r3):
+            r.next <<= a
+        for i, r in enumerate((r1, r2, r3)):
+            o = pyrtl.Output(2, 'o%d' % i)
+            o <<= r
+    elif k == 'dup_exprs':
+        x, y, z = a & b, b & a, a & b
+        o = pyrtl.Output(2, 'o')
+        o <<= x ^ y
+        p = pyrtl.Output(3, 'p')
+        p <<= z + (a | b)
+        q = pyrtl.Output(3, 'q')
+        q <<= (a | b) + x
+    elif k == 'dup_consts':
+        r = pyrtl.Register(2, 'r', reset_value=2)
+        r.next <<= pyrtl.select(a == pyrtl.Const(1, 2), r + pyrtl.Const(1, 2), pyrtl.Const(1, 2))
+        o = pyrtl.Output(2, 'o')
+        o <<= r ^ pyrtl.Const(1, 2) ^ (b & pyrtl.Const(3, 2))
+    elif k == 'dup_mem':
+        m = pyrtl.MemBlock(bitwidth=2, addrwidth=2, name='m', asynchronous=True, max_read_ports=None)
+        we = pyrtl.Input(1, 'we')
+        m[a] <<= pyrtl.MemBlock.EnabledWrite(b, we)
+        o = pyrtl.Output(2, 'o')
+        o <<= m[a] ^ m[a]
+        p = pyrtl.Output(2, 'p')
+        p <<= m[b] | m[a]
+    else:
+        raise ValueError(k)
+    return pyrtl.working_block()
+
+
+designs.register_family('PASSD', build_passd)
 designs.register_family('DET', build_det)
 
 
@@ -423,6 +464,161 @@ def run_determinism(case, ob, site):
                        'structural': True, 'detail': {'distinct_texts': len(texts), 'first': ts[0][max(0, diff - 80):diff + 80],
                                                       'second': ts[1][max(0, diff - 80):diff + 80]}})
     ob.sample = {'obligation': 'bytes identical over %d explored orders (%d object pairs) of %s' % (npaths, len(pairs), kind), 'result': 'unsat' if len(texts) <= 1 else 'sat'}
+
+
+# ------------------------------------------------------------------------------------------
+# "results of transformation passes may differ in internal naming between runs but never in behaviour": the pass runs under the
+# order model (every set it iterates ordered by ranks; two objects at a time keep or swap their places), every structurally
+# distinct result is compared with the untouched design by the solver (outputs over K cycles from the declared reset state).
+
+PASS_MODULES = ['passes', 'transform', 'core', 'wire', 'helperfuncs', 'memory']
+PASSES20 = ['optimize', 'cse', 'synth', 'synth+optimize', 'nand']
+
+
+def _run_pass(name, b):
+    from pyrtl import passes as P
+    with pyrtl.set_working_block(b, no_sanity_check=True):
+        if name == 'optimize':
+            return pyrtl.optimize(block=b)
+        if name == 'cse':
+            P.common_subexp_elimination(b)
+            return b
+        if name == 'synth':
+            return pyrtl.synthesize(update_working_block=False, block=b)
+        if name == 'synth+optimize':
+            r = pyrtl.synthesize(update_working_block=False, block=b)
+            return pyrtl.optimize(block=r)
+        if name == 'nand':
+            r = pyrtl.synthesize(update_working_block=False, block=b)
+            P.nand_synth(block=r)
+            return r
+    raise ValueError(name)
+
+
+def _plain(b):
+    """the block with builtin sets again (so that it can be used outside the exploration)"""
+    b.logic = set(set.__iter__(b.logic))
+    b.wirevector_set = set(set.__iter__(b.wirevector_set))
+    return b
+
+
+def _signature(b):
+    """structure of the block up to the names of internal wires (which a pass may choose differently from run to run)"""
+    logic = list(set.__iter__(b.logic))
+    producer = {}
+    for n in logic:
+        for d in n.dests:
+            producer[d] = n
+    canon = {}
+
+    def name(w):
+        if isinstance(w, (pyrtl.Input, pyrtl.Output, pyrtl.Register)):
+            return w.name
+        if isinstance(w, pyrtl.Const):
+            return 'const_%d_%d' % (w.val, w.bitwidth)
+        if w not in canon:
+            canon[w] = 't%d' % len(canon)
+        return canon[w]
+    seen = set()
+
+    def visit(w):
+        stack = [w]
+        while stack:
+            x = stack.pop()
+            if id(x) in seen:
+                continue
+            seen.add(id(x))
+            name(x)
+            n = producer.get(x)
+            if n is not None and n.op != 'r':
+                stack.extend(reversed(n.args))
+    roots = sorted([w for w in set.__iter__(b.wirevector_set) if isinstance(w, pyrtl.Output)], key=lambda w: w.name)
+    roots += [n.args[0] for n in sorted([n for n in logic if n.op == 'r'], key=lambda n: n.dests[0].name)]
+    for n in sorted([n for n in logic if n.op == '@'], key=lambda n: (n.op_param[1].name, [a.name for a in n.args])):
+        roots += list(n.args)
+    for w in roots:
+        visit(w)
+    return repr(sorted((n.op, repr(n.op_param) if n.op == 's' else (n.op_param[1].name if n.op in 'm@' else None),
+                        tuple((name(a), a.bitwidth) for a in n.args),
+                        tuple((name(d), d.bitwidth, getattr(d, 'reset_value', None)) for d in n.dests)) for n in logic))
+
+
+def run_pass_order(case, ob, site):
+    import importlib
+    pas = case['pas']
+    K = 3
+    A = designs.build(case)
+    objs0 = sorted(A.wirevector_set, key=lambda w: w.name) + sorted(A.logic, key=lambda n: (n.dests[0].name if n.dests else '', n.op))
+    pairs = list(itertools.combinations(range(len(objs0)), 2))
+    if case.get('sample'):
+        # objects of the same kind first (where a tie is most likely to be broken by iteration order), then a spread of the rest
+        def same(i, j):
+            x, y = objs0[i], objs0[j]
+            return type(x) is type(y) and getattr(x, 'op', None) == getattr(y, 'op', None)
+        first = [p_ for p_ in pairs if same(*p_)]
+        rest = [p_ for p_ in pairs if not same(*p_)]
+        step = max(1, len(rest) // max(1, case['sample'] - len(first)))
+        pairs = first[:case['sample']] + (rest[::step] if len(first) < case['sample'] else [])
+    results = {}
+    npaths = 0
+    mods = [importlib.import_module('pyrtl.' + m) for m in PASS_MODULES]
+    for (i, j) in pairs:
+        def body():
+            b = designs.build(case)
+            ob_list = sorted(b.wirevector_set, key=lambda w: w.name) + sorted(b.logic, key=lambda n: (n.dests[0].name if n.dests else '', n.op))
+            Ranked.memo = {}
+            Ranked.setup(ob_list, [ob_list[i], ob_list[j]])
+            for m in mods:
+                m.__dict__['set'] = Ranked
+            try:
+                with ordered_block(b):
+                    r = _run_pass(pas, b)
+                    keep = (b.logic, b.wirevector_set)        # an in-place pass edits these
+                b.logic, b.wirevector_set = keep
+            finally:
+                for m in mods:
+                    m.__dict__.pop('set', None)
+            _plain(b)
+            _plain(r)
+            sig = _signature(r)
+            results.setdefault(sig, (b if r is not b else None, r))
+            return sig
+        Ranked.setup(objs0, [objs0[i], objs0[j]])
+        ri, rj = Ranked.sym_rank[id(objs0[i])], Ranked.sym_rank[id(objs0[j])]
+        swap = [z3.Or(z3.And(ri.t == 2 * i, rj.t == 2 * j), z3.And(ri.t == 2 * j, rj.t == 2 * i))]
+        try:
+            paths = explore(body, assumptions=list(Ranked.distinct) + swap, max_paths=200)
+        except sym.HarnessError as e:
+            if 'path budget' in str(e):
+                ob.notes.append('pair skipped: path budget')
+                continue
+            raise
+        npaths += len(paths)
+        for p in paths:
+            if p.exc is not None:
+                ob.fact('pass-accepts-design-under-every-order', False, site + ':raises', detail=repr(p.exc))
+    Ranked.sym_rank = {}
+    ob.paths += npaths
+    ob.notes.append('%d structurally distinct results over %d explored orders (%d object pairs)' % (len(results), npaths, len(pairs)))
+    for n, (sig, (src, B)) in enumerate(sorted(results.items())):
+        # a pass that returns a new block leaves its source as it was: that source is the reference (its maps refer to it)
+        A = src if src is not None else designs.build(case)
+        rsite = site + ':result-%d' % n
+        try:
+            B.sanity_check()
+        except Exception as e:
+            ob.fact('result-well-formed', False, rsite + ':sanity', detail=str(e))
+            continue
+        v = Vars()
+        sp = spec.run(A, K, v, reg_init='reset', mem_init='sym')
+        assume = [z3.Not(d) for d in sp.double_write]
+        if pas == 'synth':
+            from . import c03
+            pair, mk = equiv.Pair.from_maps(A, B, B.io_map, B.reg_map, B.mem_map), c03.memkey(A)
+        else:
+            pair, mk = equiv.Pair.by_name(A, B), None
+        equiv.bmc_outputs(ob, pair, K, v, rsite + ':behaviour-from-reset', reg_init='reset', memkeyB=mk, assume=assume,
+                          compare_mems=False)
 
 
 # ------------------------------------------------------------------------------------------
@@ -776,6 +972,10 @@ def cases(tier, seed):
               {'fam': 'DET', 'kind': 'mem3'}]:
         for ch in range(4):
             out.append(dict(d, k='build', sample=120 if tier == 'quick' else None, chunk=ch))
+    for d in [{'fam': 'PASSD', 'kind': 'dup_regs'}, {'fam': 'PASSD', 'kind': 'dup_exprs'}, {'fam': 'PASSD', 'kind': 'dup_consts'},
+              {'fam': 'PASSD', 'kind': 'dup_mem'}, {'fam': 'DET', 'kind': 'small'}]:
+        for pas in PASSES20:
+            out.append(dict(d, k='pass_order', pas=pas, sample=40 if tier == 'quick' else None))
     ro = designs.expr_cases(6 if tier == 'quick' else 150, seed + 51, n=6, maxw=4, nrom=0, ops=['+', '-', '&', '|', '^', '~', '<', 'x', 'c', 's', 'trunc', 'const']) + \
         [c for c in designs.seq_cases(widths=(3,)) if c['kind'] != 'rom_reg'] + designs.misc_cases()[:8] + [{'fam': 'DET', 'kind': 'small'},
                                                                                                        {'fam': 'DET', 'kind': 'func_rom'}, {'fam': 'DET', 'kind': 'list_rom'}]
@@ -795,11 +995,14 @@ def site_of(c):
         return 'C20:determinism:%s:%s' % (c['emitter'], c['kind'])
     if c['k'] == 'build':
         return 'C20:build-determinism:%s' % c['kind']
+    if c['k'] == 'pass_order':
+        return 'C20:pass-order:%s:%s' % (c['pas'], c['kind'])
     return 'C20:readonly:%s' % c['call']
 
 
 def run_case(case, ob, tier):
-    {'keys': run_keys, 'determinism': run_determinism, 'readonly': run_readonly, 'build': run_build_determinism}[case['k']](case, ob, site_of(case))
+    {'keys': run_keys, 'determinism': run_determinism, 'readonly': run_readonly, 'build': run_build_determinism,
+     'pass_order': run_pass_order}[case['k']](case, ob, site_of(case))
 
 
 def replay(cex):
